@@ -67,7 +67,7 @@ Record TOk (T : table) : Prop := mkTOk {
   o_pf_setiter_d : t_pf_setiter_d T = true; o_pf_setiter_u : t_pf_setiter_u T = true;
   o_pf_dmg_inval_u : t_pf_dmg_inval_u T = true; o_pf_el_inval_d : t_pf_el_inval_d T = true;
   o_csr_key_groups : t_csr_key_groups T = true; o_csr_key_ndof : t_csr_key_ndof T = true;
-  o_mass_key_group : t_mass_key_group T = true
+  o_mass_key_group : t_mass_key_group T = true; o_model_cache_refresh : t_model_cache_refresh T = true
 }.
 
 Lemma not_never_spec m : not_never m = true -> m <> NNever.
@@ -95,8 +95,8 @@ Qed.
 Lemma geo_used_inv m : MeshInv m -> geo_used m = pose m.
 Proof. unfold geo_used. intros [H|H]; rewrite H; reflexivity. Qed.
 
-Lemma asm_key_ideal T p ms s v :
-  TOk T -> Forall MeshInv ms -> SimInv p ms s -> asm_key T p ms s v = ideal p ms s v.
+Lemma asm_key_ideal T p mc ms s v :
+  TOk T -> Forall MeshInv ms -> SimInv p ms s -> asm_key T p mc ms s v = ideal p ms s v.
 Proof.
   intros O HM I. unfold asm_key, ideal. f_equal.
   - apply geo_used_inv. apply mget_inv. auto.
@@ -109,10 +109,11 @@ Proof.
     apply lookup_In in E. pose proof (i_csr _ _ _ I) as HC. rewrite Forall_forall in HC.
     apply HC in E. simpl in E. subst. unfold csrkey.
     rewrite (o_csr_key_groups _ O), (o_csr_key_ndof _ O). reflexivity.
+  - unfold derived_used. rewrite (o_model_cache_refresh _ O). reflexivity.
 Qed.
 
-Theorem observe_is_ideal T p ms s :
-  TOk T -> Forall MeshInv ms -> SimInv p ms s -> observe T p ms s = ideal_obs p ms s.
+Theorem observe_is_ideal T p mc ms s :
+  TOk T -> Forall MeshInv ms -> SimInv p ms s -> observe T p mc ms s = ideal_obs p ms s.
 Proof.
   intros O HM I. unfold observe, ideal_obs. destruct (kd s) eqn:K.
   - destruct (need (ca s)) eqn:N.
@@ -251,9 +252,9 @@ Proof.
     rewrite (o_mass_key_group _ O). simpl. auto.
 Qed.
 
-Lemma getk_sim_inv T p ms solv s :
+Lemma getk_sim_inv T p mc ms solv s :
   TOk T -> Forall MeshInv ms -> SimInv p ms s -> (kd s = KLin -> solv = 0%N) ->
-  SimInv p ms (getk_sim T p ms solv s).
+  SimInv p ms (getk_sim T p mc ms solv s).
 Proof.
   intros O HM I Hs. unfold getk_sim. destruct (need (ca s)) eqn:N; auto.
   pose proof (fill_sim_inv T p ms s O I) as [].
@@ -261,8 +262,8 @@ Proof.
   intros K _. rewrite asm_key_ideal by auto. rewrite (Hs K). reflexivity.
 Qed.
 
-Lemma getkU_inv T p ms s :
-  TOk T -> Forall MeshInv ms -> SimInv p ms s -> SimInv p ms (getkU T p ms s).
+Lemma getkU_inv T p mc ms s :
+  TOk T -> Forall MeshInv ms -> SimInv p ms s -> SimInv p ms (getkU T p mc ms s).
 Proof.
   intros O HM I. unfold getkU. destruct (updU (pf s)) eqn:U; auto.
   pose proof (fill_sim_inv T p ms s O I) as [].
@@ -270,8 +271,8 @@ Proof.
   intros K _. rewrite asm_key_ideal by auto. reflexivity.
 Qed.
 
-Lemma getkD_inv T p ms s :
-  TOk T -> Forall MeshInv ms -> SimInv p ms s -> SimInv p ms (getkD T p ms s).
+Lemma getkD_inv T p mc ms s :
+  TOk T -> Forall MeshInv ms -> SimInv p ms s -> SimInv p ms (getkD T p mc ms s).
 Proof.
   intros O HM I. unfold getkD. destruct (updD (pf s)) eqn:U; auto.
   pose proof (fill_sim_inv T p ms s O I) as [].
@@ -434,8 +435,8 @@ Proof.
     + split; simpl; intros; auto. congruence.
 Qed.
 
-Lemma solve_sim_inv T v1 v2 p ms s :
-  TOk T -> Forall MeshInv ms -> SimInv p ms s -> SimInv p ms (solve_sim T p ms v1 v2 s).
+Lemma solve_sim_inv T v1 v2 p mc ms s :
+  TOk T -> Forall MeshInv ms -> SimInv p ms s -> SimInv p ms (solve_sim T p mc ms v1 v2 s).
 Proof.
   intros O HM I. unfold solve_sim. destruct (kd s) eqn:K.
   - apply set_solU_inv. apply getk_sim_inv; auto.
@@ -444,14 +445,14 @@ Proof.
     + apply getk_sim_inv; auto using raise_inv. rewrite raise_kd. intros; congruence.
     + unfold getk_sim. destruct (need (ca (raise T s))); simpl; rewrite ?raise_kd; intros; congruence.
   - rewrite (o_pf_dmg_inval_u _ O), (o_pf_el_inval_d _ O).
-    set (s1 := set_solD v1 (getkD T p ms s)).
+    set (s1 := set_solD v1 (getkD T p mc ms s)).
     (* damage solve: U flag must go false before solD changes; model order: set_solD then flags *)
     assert (I2 : SimInv p ms (set_flags (updD (pf s1)) false s1)).
-    { pose proof (getkD_inv T p ms s O HM I) as [].
+    { pose proof (getkD_inv T p mc ms s O HM I) as [].
       unfold s1. constructor; simpl in *; auto. intros; discriminate. }
     set (s2 := set_flags (updD (pf s1)) false s1) in *.
-    pose proof (getkU_inv T p ms s2 O HM I2) as I3.
-    set (s3' := getkU T p ms s2) in *.
+    pose proof (getkU_inv T p mc ms s2 O HM I2) as I3.
+    set (s3' := getkU T p mc ms s2) in *.
     destruct I3. constructor; simpl in *; auto. intros; discriminate.
 Qed.
 
@@ -502,20 +503,20 @@ Proof.
     destruct (kd s0) eqn:K; auto.
     + split; simpl.
       * destruct (need (ca s0)); auto using fill_meshinv.
-      * assert (Forall (SimInv (par w) (meshes w)) (upd_nth i (getk_sim T (par w) (meshes w) 0) (sims w))).
+      * assert (Forall (SimInv (par w) (meshes w)) (upd_nth i (getk_sim T (par w) (mcache w) (meshes w) 0) (sims w))).
         { eapply Forall_upd_nth; eauto. intros. apply getk_sim_inv; auto. }
         destruct (need (ca s0)); auto. eapply Forall_impl; [|exact H]. intros. apply inv_fill; auto.
     + split; simpl.
       * destruct (if dmg then updD (pf s0) else updU (pf s0)); auto using fill_meshinv.
       * assert (Forall (SimInv (par w) (meshes w))
-                  (upd_nth i (if dmg then getkD T (par w) (meshes w) else getkU T (par w) (meshes w)) (sims w))).
+                  (upd_nth i (if dmg then getkD T (par w) (mcache w) (meshes w) else getkU T (par w) (mcache w) (meshes w)) (sims w))).
         { eapply Forall_upd_nth; eauto. intros. destruct dmg; [apply getkD_inv|apply getkU_inv]; auto. }
         destruct (if dmg then updD (pf s0) else updU (pf s0)); auto.
         eapply Forall_impl; [|exact H]. intros. apply inv_fill; auto.
   - (* OSolve *) destruct (nth_error (sims w) i) as [s0|] eqn:E; auto.
     split; simpl; auto using fill_meshinv.
     assert (Forall (SimInv (par w) (meshes w))
-              (upd_nth i (solve_sim T (par w) (meshes w) (tick w) (tick2 w)) (sims w))).
+              (upd_nth i (solve_sim T (par w) (mcache w) (meshes w) (tick w) (tick2 w)) (sims w))).
     { eapply Forall_upd_nth; eauto. intros. apply solve_sim_inv; auto. }
     eapply Forall_impl; [|exact H]. intros. apply inv_fill; auto.
   - (* OSaveIter *) apply on_sim_inv; auto. intros s []. constructor; simpl; auto.
@@ -546,12 +547,12 @@ Proof.
   - change dmesh with (pristine1 dmesh) at 2. symmetry. apply map_nth.
 Qed.
 
-Lemma observe_fresh T p ms s : observe T p (pristine ms) (fresh_sim s) = ideal_obs p ms s.
+Lemma observe_fresh T p ms s : observe T p None (pristine ms) (fresh_sim s) = ideal_obs p ms s.
 Proof.
   destruct (mget_pristine ms (cur (cf s))) as [E1 [E2 E3]].
-  assert (A : forall v, asm_key T p (pristine ms) (fresh_sim s) v = ideal p ms s v).
-  { intros v. unfold asm_key, ideal, mass_used, csr_used, geo_used. simpl. rewrite E1, E2, E3.
-    destruct (kd s); reflexivity. }
+  assert (A : forall v, asm_key T p None (pristine ms) (fresh_sim s) v = ideal p ms s v).
+  { intros v. unfold asm_key, ideal, mass_used, csr_used, geo_used, derived_used. simpl. rewrite E1, E2, E3.
+    destruct (kd s); destruct (t_model_cache_refresh T); reflexivity. }
   unfold observe, ideal_obs.
   change (kd (fresh_sim s)) with (kd s).
   change (need (ca (fresh_sim s))) with true.
@@ -566,7 +567,7 @@ Qed.
 Theorem fresh_equiv T : table_ok T = true ->
   forall ops i s, nth_error (sims (run T ops w0)) i = Some s ->
   let w := run T ops w0 in
-  observe T (par w) (meshes w) s = observe T (par w) (pristine (meshes w)) (fresh_sim s).
+  observe T (par w) (mcache w) (meshes w) s = observe T (par w) None (pristine (meshes w)) (fresh_sim s).
 Proof.
   intros H ops i s E w. apply table_ok_spec in H.
   pose proof (run_inv T ops w0 H w0_inv) as [HM HS]. fold w in HM, HS.
@@ -592,8 +593,8 @@ Qed.
 
 (* staggered phase-field flags: within one staggered iteration the displacement system is rebuilt
    from the NEW damage field, and the damage system is flagged stale by the new displacement *)
-Theorem staggered_flags T p ms v1 v2 s : table_ok T = true -> kd s = KPF ->
-  let s' := solve_sim T p ms v1 v2 s in
+Theorem staggered_flags T p mc ms v1 v2 s : table_ok T = true -> kd s = KPF ->
+  let s' := solve_sim T p mc ms v1 v2 s in
   updD (pf s') = false /\ updU (pf s') = true /\ option_map k_sol (kU (pf s')) = Some v1 /\
   solD (cf s') = v1 /\ solU (cf s') = v2.
 Proof.
@@ -627,9 +628,9 @@ Proof. vm_compute. reflexivity. Qed.
 (* ... and switching off ANY single required flag is refuted by its witness: every conjunct of
    table_ok is necessary on the model.  Exception, stated honestly: the "group is part of the cache
    key" flags 31 and 33 are necessary only when the mesh setter does not also clear the simulation
-   cache (flag 34); with that clear present table_ok is stricter than needed for these two. *)
+   cache (flag 40); with that clear present table_ok is stricter than needed for these two. *)
 Definition necessity_table (id : nat) : table :=
-  match id with 31 | 33 => mk_table [id; 34] | _ => mk_table [id] end.
+  match id with 31 | 33 => mk_table [id; 40] | _ => mk_table [id] end.
 Example every_flag_necessary :
   forallb (fun id => negb (table_ok (necessity_table id)) && refutes (necessity_table id) (witness id)) all_ids = true.
 Proof. vm_compute. reflexivity. Qed.
